@@ -48,6 +48,48 @@ Theorem C14_two_vs_list : forall (bi : train -> train -> res R) a b,
 Proof. exact distance_multi_two_id. Qed.
 Print Assumptions C14_two_vs_list.
 
+From PS Require Lem_Leftovers.
+Import Lem_Leftovers.
+(* a list containing two trains gives the two-train result, for every measure (scalars and profiles) *)
+Theorem C14_two_vs_list_isi_distance : forall (eps : R) (cy : bool) (m : R) (iv : option (R * R)) (a b : train), isi_distance_multi ROps eps cy false m iv [a; b] None = isi_distance_bi ROps eps cy false m iv a b.
+Proof. exact isi_distance_two_list. Qed.
+Print Assumptions C14_two_vs_list_isi_distance.
+Theorem C14_two_vs_list_spike_distance : forall (eps : R) (cy : bool) (m : R) (ri : bool) (iv : option (R * R)) (a b : train), spike_distance_multi ROps eps cy false m ri iv [a; b] None = spike_distance_bi ROps eps cy false m ri iv a b.
+Proof. exact spike_distance_two_list. Qed.
+Print Assumptions C14_two_vs_list_spike_distance.
+Theorem C14_two_vs_list_spike_sync : forall (eps : R) (cy : bool) (mt m : R) (iv : option (R * R)) (a b : train), spike_sync_multi ROps eps cy false mt m iv [a; b] None = spike_sync_bi ROps eps cy false mt m iv a b.
+Proof. exact sync_two_list. Qed.
+Print Assumptions C14_two_vs_list_spike_sync.
+Theorem C14_two_vs_list_spike_train_order : forall (eps : R) (cy : bool) (mt m : R) (a b : train), spike_train_order_multi ROps eps cy false true mt m [a; b] None = spike_train_order_bi ROps eps cy false true mt m a b.
+Proof. exact order_two_list. Qed.
+Print Assumptions C14_two_vs_list_spike_train_order.
+Theorem C14_two_vs_list_isi_profile : forall (eps : R) (cy : bool) (m : R) (a b : train), isi_profile_multi ROps eps cy false m [a; b] None = Ok (isi_profile_bi ROps eps cy false m a b).
+Proof. exact isi_profile_two_list. Qed.
+Print Assumptions C14_two_vs_list_isi_profile.
+Theorem C14_two_vs_list_spike_profile : forall (eps : R) (cy : bool) (m : R) (ri : bool) (a b : train), spike_profile_multi ROps eps cy false m ri [a; b] None = Ok (spike_profile_bi ROps eps cy false m ri a b).
+Proof. exact spike_profile_two_list. Qed.
+Print Assumptions C14_two_vs_list_spike_profile.
+Theorem C14_two_vs_list_sync_profile : forall (eps : R) (cy : bool) (mt m : R) (a b : train), spike_sync_profile_multi ROps eps cy false mt m [a; b] None = Ok (spike_sync_profile_bi ROps eps cy false mt m a b).
+Proof. exact sync_profile_two_list. Qed.
+Print Assumptions C14_two_vs_list_sync_profile.
+Theorem C14_two_vs_list_order_profile : forall (eps : R) (cy : bool) (mt m : R) (a b : train), order_profile_multi ROps eps cy false mt m [a; b] None = order_profile_bi ROps eps cy false mt m a b.
+Proof. exact order_profile_two_list. Qed.
+Print Assumptions C14_two_vs_list_order_profile.
+
+From PS Require ModelAuto Lem_Findings.
+(* KNOWN FINDING F10 as a theorem (refutation of "MRTS honoured identically through every form" for
+   MRTS='auto'): the pool of trains the code uses for the automatic threshold of a multivariate call
+   ([auto_pool_multi]: the whole list, `indices` is not consulted) gives a different threshold than
+   the pool of the selected sub-list, for the witness L = [[1/8,1/2],[1/4,3/4],[1/16,1/8,3/16,1/4]]
+   on [0,1], indices = [0,1] (replayed on the implementation by the check: KNOWN_FINDINGS.txt) *)
+Theorem C14_auto_with_indices_refuted :
+  exists (l : list (list R * R * R)) (idx : option (list nat)),
+    check_indices (length l) (indices_or_all (length l) idx) = true /\
+    default_thresh_sq ROps (ModelAuto.auto_pool_multi ROps 0 false l idx) <>
+    default_thresh_sq ROps (ModelAuto.auto_pool_selected ROps 0 false l idx).
+Proof. exact Lem_Findings.F10_auto_threshold_ignores_indices. Qed.
+Print Assumptions C14_auto_with_indices_refuted.
+
 (* non-vacuity: an admissible selection that is neither a prefix nor in order *)
 Example C14_nonvacuous : check_indices 4 [3; 0; 2]%nat = true /\ pairs_of [3; 0; 2]%nat = [(3, 0); (3, 2); (0, 2)]%nat.
 Proof. split; reflexivity. Qed.
